@@ -37,9 +37,10 @@ DecodeRuns(bs, pos, w) ==
   ELSE LET h == ReadLEB(bs, pos, 0, 0) IN
     IF h[1] < 0 THEN Bad
     ELSE IF h[1] % 2 = 0 THEN
-         \* RLE run: count >= 1, value in one byte (widths 1..8), in range
+         \* RLE run: value in one byte (widths 1..8), in range.  The grammar (rle-header = varint(rle-run-len << 1)) does
+         \* not exclude a run of length 0: it stands for no value at all (parquet-mr reads it that way)
          LET cnt == h[1] \div 2 IN
-         IF cnt < 1 \/ h[2] > Len(bs) THEN Bad
+         IF h[2] > Len(bs) THEN Bad
          ELSE IF bs[h[2]] >= Pow2(w) THEN Bad
          ELSE LET rest == DecodeRuns(bs, h[2] + 1, w) IN
               [ok |-> rest.ok, vals |-> [i \in 1..cnt |-> bs[h[2]]] \o rest.vals, nruns |-> rest.nruns + 1]
